@@ -31,7 +31,7 @@ RDX0 = 0xdddddddddddddddd       # initial RDX of both interpreters
 A64INIT = 0xa0a0a0a000           # initial Xr = A64INIT + r
 KINDS = ['amd64.entry', 'amd64.origin', 'amd64.relative', 'amd64.stub', 'arm64.entry', 'arm64.stub', 'arm64.stubctx',
          'arm64.origin', 'i386.entry']
-F5_KEY = 'F5-absolute-jump-back'
+PTR_KEY = 'ptr-api-accepts-pointer-replacement'
 CHUNK = 400_000                  # ops per chunk: the thorough tier streams ~20M ops through files, never holds them all
 
 # tag, package (virtual dirs are created by overlay), {virtual file: probe file}, re-hosted sources, lanes, build env
@@ -154,10 +154,19 @@ def site_ops(tier, rng):
         ops.append(f'site patch.gen {rng.below(N_ORIGINS)} {x:#x} {rng.next() & 0xffffffffff:#x}')
     for oi in range(N_ORIGINS):
         ops.append(f'site patch.apply {oi} {rng.below(7)}')
+    # every entry point of the package with every argument form it might accept: the function itself (v) or a pointer to a
+    # variable holding it (p), for origin and replacement.  A form may be refused; an accepted one must land correctly.
+    for api in ('patch', 'unsafe', 'tramp'):
+        for of in 'vp':
+            for rf in 'vp':
+                ops.append(f'site patch.apply {rng.below(N_ORIGINS)} {rng.below(7)} {api} {of} {rf}')
+    for api in ('ptr', 'method'):
+        for rf in 'vp':
+            ops.append(f'site patch.apply {rng.below(N_ORIGINS)} {rng.below(7)} {api} v {rf}')
     # the same origin through placeholder A, B, A again; a second origin through the same placeholders; every origin once;
     # hand-assembled origins in an executable page (r<zoo>p<int3 padding>:n = placeholder in the same page): functions barely
     # longer than the moved head, relocated copy longer than / as long as / shorter than the whole function
-    ops.append('site patch.jumpback o0:t0 o0:t1 o0:t0 o1:t0 o1:t1 o3:t2 o3:t0 o4:t1 o4:t2 o2:t2 o0:t2')
+    ops.append('site patch.jumpback o0:t0 o0:t1 o0:t0 o1:t0 o1:t1 o3:t2 o3:t0 o4:t1 o4:p2 o2:t2 o0:p2 o1:p0')
     ops.append('site patch.jumpback r0p1:n r0p2:n r0p5:n r1p1:n r1p4:n r2p3:n r3p2:n r1p1:n')
     for _ in range(2 if tier == 'quick' else 12):
         steps = []
@@ -204,7 +213,7 @@ def oracle_origin(f, t, kv):
     f5 = bs == '48ba' + t.to_bytes(8, 'little').hex() + 'ff22' and rip == (~t) & M64 and rdx == t
     if f5 and not fits:
         return (f'absolute form of the jump back lands on [to]={kv["rip"]} (the code bytes stored at the destination) with '
-                f'rdx clobbered to {kv["rdx"]}, wanted rip={t:#x} and rdx unchanged'), F5_KEY
+                f'rdx clobbered to {kv["rdx"]}, wanted rip={t:#x} and rdx unchanged (defect F5, repaired by 36abd0c, is back)'), None
     if f5:
         return f'the absolute (indirect) form was chosen although to-(from+5) fits rel32; it lands on [to]={kv["rip"]}, wanted {t:#x}', None
     form = 'relative form' if len(bs) == 10 else f'{len(bs) // 2}-byte form'
@@ -213,7 +222,7 @@ def oracle_origin(f, t, kv):
 
 def oracle(kind, f, t, obs):
     """The property itself, stated on what the implementation emitted (as interpreted by the reference decoder).
-    Returns (why | None, known-finding key | None)."""
+    Returns (why | None, known-finding key | None); no finding of C15 is known at present (F1, F5 are repaired), the key is always None."""
     if obs is None:
         return 'no observation (probe crashed?)', None
     if kind == 'amd64.relative':
@@ -285,11 +294,26 @@ def _site_oracle(op, obs):
         if obs.startswith('err:'):
             return f'refused: {obs}', None, derived, st
         kv = kvs(obs)
+        if 'refused:' in obs:
+            # the API may refuse an argument form; then nothing may have been written and the function still is itself
+            st['refused_forms'] = st.get('refused_forms', 0) + 1
+            if tk[4:] in ([], ['patch', 'v', 'v']) or (tk[5:] == ['v', 'v']):
+                return f'the plain form (function values) was refused: {obs[-100:]}', None, derived, st
+            if kv.get('restored') != 'true' or kv.get('after') != kv.get('wantafter'):
+                return f'refused, but the origin was modified: restored={kv.get("restored")} result={kv.get("after")} wanted {kv.get("wantafter")}', None, derived, st
+            return None, None, derived, st
+        st['accepted_forms'] = st.get('accepted_forms', 0) + (tk[1] == 'patch.apply')
         pre = '' if tk[1] == 'patch.gen' else 'e'
-        if 'crashed:' in obs or pre + 'bytes' not in kv:
+        if pre + 'bytes' not in kv:
             return f'incomplete observation: {obs[-120:]}', None, derived, st
-        derived.append((f'emit amd64.entry {kv["origin"]} {kv["arg"]}', f'bytes={kv[pre + "bytes"]} rip={kv.get(pre + "rip")} rdx={kv.get(pre + "rdx")}'))
         why = entry_check(kv, pre)
+        if why and tk[4:] == ['ptr', 'v', 'p'] and kv.get('erdx') == kv.get('pvar') and 'erip' in kv:
+            # exactly this: Ptr/PtrTrampoline handed `&fnVar` accept it (no kind check on that path) and use the address of the
+            # variable as the function value — recorded finding; any other accepted form that lands wrongly is a violation
+            return (f'Ptr(origin, &fnVar) is accepted and the origin then jumps to {kv["erip"]} with rdx={kv["erdx"]} = the address of the '
+                    f'variable, wanted [fv] with rdx=fv={kv["arg"]} (the function value stored in it)' +
+                    ('' if 'call' in kv else '; calling the diverted function killed the process')), PTR_KEY, derived, st
+        derived.append((f'emit amd64.entry {kv["origin"]} {kv["arg"]}', f'bytes={kv[pre + "bytes"]} rip={kv.get(pre + "rip")} rdx={kv.get(pre + "rdx")}'))
         if why:
             return why, None, derived, st
         if tk[1] == 'patch.gen':
@@ -297,7 +321,9 @@ def _site_oracle(op, obs):
                 return 'probe echo mismatch', None, derived, st
             return None, None, derived, st
         if kv['deref'] != kv['code']:
-            return f'[replacementInAddr]={kv["deref"]} is not the code of the replacement {kv["code"]}', None, derived, st
+            return f'probe: [function value]={kv["deref"]} is not the code of the replacement {kv["code"]}', None, derived, st
+        if 'crashed:' in obs:
+            return f'calling the diverted function killed the process: {obs[-60:]}', None, derived, st
         if kv.get('call') != kv.get('want') or kv.get('call') is None:
             return f'calling the patched function gave {kv.get("call")}, the replacement gives {kv.get("want")}', None, derived, st
         if kv.get('restored') != 'true' or kv.get('after') != kv.get('wantafter'):
@@ -454,7 +480,7 @@ def run_emit(bins, ops, sc, what='emit'):
         outp = sc.path(f'{what}.{p["tag"]}.impl')
         rc, log = 1, ''
         for attempt in (1, 2):
-            rc, log = run_once(p['bin'], 'TestVerifC15', ops_path, outp, 1800)
+            rc, log = run_once(p['bin'], 'TestVerifC15', ops_path, outp, 600)      # typical 2-5 s per chunk
             if rc == 0:
                 break
             if p['native'] and attempt == 1:      # e.g. the kernel cannot exec 32-bit programs: use the re-host from now on
@@ -519,7 +545,7 @@ def run_site(bins, ops, sc):
                 f.write('\n'.join(ops[i] for i in pending) + '\n')
             # relocated code runs inside functions whose stack maps describe other code: keep the runtime's signal-based
             # preemption out of that window (the probe also disables the collector)
-            rc, log = run_once(p['bin'], 'TestVerifC15Site', ops_path, outp, 600, env={'GODEBUG': 'asyncpreemptoff=1'})
+            rc, log = run_once(p['bin'], 'TestVerifC15Site', ops_path, outp, 120, env={'GODEBUG': 'asyncpreemptoff=1'})   # typical 0.3 s
             got = C.read_indexed(outp, len(pending))
             rest = []
             for j, i in enumerate(pending):
@@ -675,8 +701,7 @@ def _run(tier, out, sc):
     # ---- emit / conc / cap lanes, streamed in chunks
     distinct = Distinct(sc)
     bad, diffs, samples = [], [], []
-    n_ops = n_diff = n_f5 = 0
-    f5_example = None
+    n_ops = n_diff = 0
     per_kind = {}
     rel = nor = 0
     for chunk in chunks(emit_stream(tier, rng), CHUNK):
@@ -687,10 +712,7 @@ def _run(tier, out, sc):
             kind = tk[1] if tk[0] == 'emit' else tk[0]
             per_kind[kind] = per_kind.get(kind, 0) + (impl[i] is not None)
             why, key = oracle_op(op, impl[i])
-            if why and key:
-                n_f5 += 1
-                f5_example = f5_example or (op, impl[i], why)
-            elif why and len(bad) < 20:
+            if why and len(bad) < 20:
                 bad.append((op, impl[i], why))
             elif why:
                 bad.append(None)
@@ -716,14 +738,16 @@ def _run(tier, out, sc):
     sops = site_ops(tier, rng.fork('site'))
     sobs, flakes = run_site(bins, sops, sc)
     sbad, derived, sstat = [], [], {'steps': 0, 'refused': 0, 'widened': 0, 'far': 0}
+    keyed = 0
     for op, o in zip(sops, sobs):
         why, key, der, st = site_oracle(op, o)
-        for k in sstat:
-            sstat[k] += st[k]
+        for k in st:
+            sstat[k] = sstat.get(k, 0) + st[k]
         derived += [(op, e, im) for e, im in der]
         if why and key:
-            n_f5 += 1
-            f5_example = (op, o, why)          # the executed instance is the better example
+            out.violation(f'{op}: {why}', {'kind': 'site-oracle', 'ops': [op], 'observed': o, 'why': why,
+                                           'how': 'python3 check.py C15 --replay <this file>'}, key=key)
+            keyed += 1
         elif why:
             sbad.append((op, o, why))
     dmodel = None
@@ -735,14 +759,10 @@ def _run(tier, out, sc):
     sdiffs = [(op, e, im, dmodel[j]) for j, (op, e, im) in enumerate(derived) if dmodel is not None and dmodel[j] != im]
     if not sbad:
         missing = [op for op, o in zip(sops, sobs) if o is None]
-        if missing or sstat['steps'] < 12 or sstat['widened'] < 1 or len(derived) < 30:
+        if missing or sstat['steps'] < 12 or sstat['widened'] < 1 or len(derived) < 30 or sstat.get('accepted_forms', 0) < 8:
             raise C.Infra(f'call-site lane ran too little: missing={missing[:3]} stats={sstat} derived={len(derived)}')
 
     # ---- 1. the property on the implementation
-    if f5_example:
-        op, o, why = f5_example
-        out.violation(f'{op}: {why}', {'kind': 'impl-oracle', 'ops': [op], 'observed': o, 'why': why, 'occurrences_this_run': n_f5,
-                                       'how': 'python3 check.py C15 --replay <this file>'}, key=F5_KEY)
     real_bad = [b for b in bad if b]
     for op, o, why in real_bad[:3]:
         out.violation(f'{op}: {why}', {'kind': 'impl-oracle', 'ops': [op], 'observed': o, 'why': why,
@@ -785,8 +805,9 @@ def _run(tier, out, sc):
                 'derived emit lines); pairs: every 16-bit lane value (stride 251 in quick, all in thorough), from-to = ±2^31±k, 0/2^63/2^64 edges, '
                 'random pairs; non-trivial = decodable emitted sequence, distinct by (kind, bytes, landing)',
         'distribution': {'emit_ops': n_ops, 'observations_per_kind': per_kind, 'amd64.origin relative-form': rel, 'amd64.origin absolute-form': nor - rel,
-                         'known_finding_F5_inputs': n_f5, 'site_ops': len(sops), 'site_real_patches_with_trampoline': sstat['steps'],
-                         'site_refused_by_goom': sstat['refused'], 'site_relocated_head_longer_than_head': sstat['widened'],
+                         'site_ops': len(sops), 'site_real_patches_with_trampoline': sstat['steps'],
+                         'site_refused_by_goom': sstat['refused'], 'site_apply_forms_accepted': sstat.get('accepted_forms', 0),
+                         'site_apply_forms_refused': sstat.get('refused_forms', 0), 'site_relocated_head_longer_than_head': sstat['widened'],
                          'site_placeholder_more_than_2GiB_from_origin': sstat['far'],
                          'site_derived_emit_lines': len(derived), 'site_crash_not_reproduced': flakes,
                          'i386_probe_native_32bit': [p['native'] for p in bins if p['tag'] == 'i386patch'][0],
